@@ -531,6 +531,7 @@ def lstepLive (env : Containers.Env) (s : LSession) : Op → Option LSession
     if d = d2 then
       (s.docs[d]?).bind fun doc => (lmoveNode doc.root p p2).map fun r =>
         { s with docs := s.docs.set d { doc with root := r.1 }, ledger := s.ledger.commit s.ledger.next r.2 }
+    else if s.alloc = .pool then none
     else
       (s.docs[d]?).bind fun D => (s.docs[d2]?).bind fun S => (lmoveNode2 D.root p S.root p2).bind fun r =>
         -- PRECONDITION (not checked by the API): the moved subtree holds no view into S's parse buffer
@@ -551,6 +552,7 @@ def lstepLive (env : Containers.Env) (s : LSession) : Op → Option LSession
     if d = d2 then
       (s.docs[d]?).bind fun doc => (lswapNodes doc.root p p2).map fun r =>
         { s with docs := s.docs.set d { doc with root := r } }
+    else if s.alloc = .pool then none
     else
       (s.docs[d]?).bind fun D => (s.docs[d2]?).bind fun S => (lswapNodes2 D.root p S.root p2).bind fun r =>
         -- PRECONDITION (not checked by the API): neither subtree holds a view into its document's parse buffer
